@@ -534,6 +534,11 @@ func (m *Message) UnsetField(id int) {
 	m.mu.Lock()
 	defer m.mu.Unlock()
 
+	m.unsetField(id)
+}
+
+// unsetField assumes that the mutex is already locked by the caller.
+func (m *Message) unsetField(id int) {
 	if _, ok := m.fieldsMap[id]; ok {
 		delete(m.fieldsMap, id)
 		// re-create the field to reset its value (and subfields if it's a composite field)
@@ -548,6 +553,9 @@ func (m *Message) UnsetField(id int) {
 // "a.b.c". This effectively removes the fields' values and excludes them from
 // operations like Pack() or Marshal().
 func (m *Message) UnsetFields(idPaths ...string) error {
+	m.mu.Lock()
+	defer m.mu.Unlock()
+
 	for _, idPath := range idPaths {
 		if idPath == "" {
 			continue
@@ -561,7 +569,7 @@ func (m *Message) UnsetFields(idPaths ...string) error {
 
 		if _, ok := m.fieldsMap[idx]; ok {
 			if len(path) == 0 {
-				m.UnsetField(idx)
+				m.unsetField(idx)
 				continue
 			}
 
